@@ -228,6 +228,7 @@ def instances():
     add('retf 8', 'retf', 32, 'i', branch='indirect', stack=True, farret=4)
     add('data16 retf', 'retf', 16, 'none+66', branch='indirect', stack=True, farret=2)
     add('data16 retf 4', 'retf', 16, 'i+66', branch='indirect', stack=True, farret=2)
+    add('data16 ret', 'ret', 16, 'none+66', branch='indirect', stack=True); add('data16 ret 4', 'ret', 16, 'i+66', branch='indirect', stack=True)
     # ---- a size prefix given twice is still one prefix (bytes given directly: GNU as does not emit them)
     add('dup67 mov eax, DWORD PTR [bx]', 'mov', 32, 'r,m16addr', low=True, bases16=['ebx'], idx16=[], code='67678b07')
     add('dup67 mov DWORD PTR [bx+si], ebx', 'mov', 32, 'm,r16addr', low=True, bases16=['ebx'], idx16=['esi'], code='67678918')
